@@ -13,9 +13,9 @@ def gen_ast(rnd, i, rich=True):
     if rnd.random() < 0.12:
         # identifiers SQLite accepts bare: letters beyond ASCII
         names[rnd.randrange(ncols)] = rnd.choice(["é", "ñame", "日本", "aé", "ü_1"])
-    elif rnd.random() < 0.08:
+    elif rnd.random() < 0.14:
         # names that only exist quoted, containing the quote characters themselves (written doubled inside the quotes)
-        names[rnd.randrange(ncols)] = rnd.choice(['q"t', "b`t", "s't", "x y", "k]z", 'd""d', "e``e", "select", "a.b", "(p)"])
+        names[rnd.randrange(ncols)] = rnd.choice(['q"t', "b`t", "c`d", "m`n", 'u"v', 'w"x', "s't", "x y", "k]z", 'd""d', "e``e", "select", "a.b", "(p)"])
     wr = rnd.random() < 0.25
     cols = []
     pk_col = None
